@@ -44,6 +44,7 @@ func c04Gen(c *core.Ctx, idx int) (*dp.Schema, *dp.DNode, bool) {
 	o.Aug = idx%5 == 2
 	o.Sub = idx%5 == 4
 	o.ListsOfAll = true
+	o.NumericEnumNames = true
 	o.Presence = true
 	o.NonConfig = idx%2 == 0
 	o.MaxDepth = 2 + r.Intn(3)
